@@ -42,8 +42,55 @@ partial def dTL (t : TL) (ss : List St) : Except String (List St) :=
     | .ok ss' => dTL r ss'
 end
 
+/-! `tmplsites <id> name=<template>`: the hole-site table — for every value interpolation site of the template, the lexical
+contexts (tokenizer modes) it can be reached in over all environments: `space` = between tokens (the value forms tokens of its own:
+it has to be token-safe), `word` = inside an unquoted word, `dq` / `sq` = inside a quoted token, `comment`. Computed from the same
+reachable-state sets as `wellFormedForAll`. -/
+
+def closure (body : TL) (ss : List St) : List St :=
+  match runTL body ss with
+  | none => ss
+  | some f0 =>
+    let x1 := union ss f0
+    match runTL body x1 with
+    | none => x1
+    | some f1 =>
+      let x2 := union x1 f1
+      match runTL body x2 with
+      | none => x2
+      | some f2 => union x2 f2
+
+def modeName : Mode → String
+  | .space => "space" | .word => "word" | .dq => "dq" | .sq => "sq" | .need => "need" | .comment => "comment"
+
+mutual
+partial def sitesT (t : T) (ss : List St) : List (String × String) :=
+  match t with
+  | .text _ => []
+  | .hole frag l => ss.map fun s => ((if frag then "frag:" else "") ++ l, modeName s.mode)
+  | .ite a b => sitesTL a ss ++ sitesTL b ss
+  | .loop body els => sitesTL els ss ++ sitesTL body (closure body ss)
+partial def sitesTL (t : TL) (ss : List St) : List (String × String) :=
+  match t with
+  | .nil => []
+  | .cons x r => sitesT x ss ++ (match runT x ss with | some ss' => sitesTL r ss' | none => [])
+end
+
+def siteTable (t : TL) : String :=
+  let raw := sitesTL t [init]
+  let labels := (raw.map (·.1)).foldl (fun acc l => if acc.contains l then acc else acc ++ [l]) ([] : List String)
+  let rows := labels.map fun l =>
+    let ms := (raw.filter (·.1 == l)).map (·.2)
+    let ms := ms.foldl (fun acc m => if acc.contains m then acc else acc ++ [m]) ([] : List String)
+    clean l ++ "=" ++ joinWith "+" (ms.mergeSort (fun a b => decide (a ≤ b)))
+  joinWith "," (rows.mergeSort (fun a b => decide (a ≤ b)))
+
 def run (kind : String) (fs : List String) : Option (String × String) :=
-  if kind == "tmpl" then
+  if kind == "tmplsites" then
+    match Nic.Gen.Templates.table.find? (fun e => e.1 == kv fs "name") with
+    | none => some ("no-template", "-")
+    | some (_, t) => some (siteTable t, "-")
+  else if kind == "tmpl" then
     let name := kv fs "name"
     match Nic.Gen.Templates.table.find? (fun e => e.1 == name) with
     | none => some ("no-template", "-")
